@@ -113,6 +113,7 @@ type token struct {
 	Text string
 	Kind string
 	C    clause
+	Why  string // invalid tokens: what is wrong
 }
 
 func tokenList() []token {
@@ -128,17 +129,17 @@ func tokenList() []token {
 	}
 	valid = append(valid, sortClauses()...)
 	for _, c := range valid {
-		out = append(out, token{c.Text, "valid", c})
+		out = append(out, token{Text: c.Text, Kind: "valid", C: c})
 	}
 	for _, m := range malformedPieces {
 		if strings.Contains(m.Text, `"`) {
-			out = append(out, token{m.Text, "free", clause{}}) // an open quote swallows what follows: position dependent
+			out = append(out, token{Text: m.Text, Kind: "free"}) // an open quote swallows what follows: position dependent
 			continue
 		}
-		out = append(out, token{m.Text, "invalid", clause{}})
+		out = append(out, token{Text: m.Text, Kind: "invalid", Why: m.Why})
 	}
-	for _, f := range []string{"state:open", "status:OPEN", "STATUS:open", "Sort:id", "'single quoted'", "label:'x y'", `"`, "'", `""`, `label:""`, "metadata:k", `a"b`, "-", "sort:", "no:", "label::prod"} {
-		out = append(out, token{f, "free", clause{}})
+	for _, f := range []string{"state:open", "status:OPEN", "STATUS:open", "Sort:id", "'single quoted'", "label:'x y'", `"`, "'", `""`, `label:""`, "metadata:k", `a"b`, "-", "sort:", "no:"} {
+		out = append(out, token{Text: f, Kind: "free"})
 	}
 	return out
 }
@@ -165,7 +166,7 @@ func partTokens(col *collector, maxTokens int) partResult {
 			sig, detail, class := checkTokenString(toks, seq)
 			if sig != "" {
 				col.add(finding{oracleOfTokenSig(sig), sig, detail, map[string]any{"part": "tokens", "tokens": seq, "input": joinTokens(toks, seq)}})
-				local["VIOLATION "+sig]++
+				local["VIOLATION "+strings.SplitN(sig, "[", 2)[0]]++
 			} else {
 				local[class]++
 			}
@@ -206,12 +207,15 @@ func checkTokenString(toks []token, seq []int) (sig, detail, class string) {
 		return
 	}
 	var cs []clause
-	invalid := false
+	invalid, why := false, "more than one sort"
 	for _, k := range seq {
 		switch toks[k].Kind {
 		case "free":
 			return "", "", "undocumented piece present: " + class[:6]
 		case "invalid":
+			if !invalid {
+				why = toks[k].Why
+			}
 			invalid = true
 		default:
 			cs = append(cs, toks[k].C)
@@ -222,11 +226,7 @@ func checkTokenString(toks []token, seq []int) (sig, detail, class string) {
 	switch {
 	case invalid || twoSorts:
 		if err == nil {
-			why := "more than one sort"
-			if invalid {
-				why = "a malformed piece"
-			}
-			return "malformed-accepted", fmt.Sprintf("query.Parse(%q) succeeded although the input contains %s", s, why), ""
+			return "malformed-accepted[" + why + "]", fmt.Sprintf("query.Parse(%q) succeeded; must be rejected: %s", s, why), ""
 		}
 		return "", "", "malformed rejected"
 	case err != nil:
